@@ -25,7 +25,7 @@ Qed.
 (** a sufficient condition on impl headers, for any set of impls: iterators bounded on a concurrent buffer and a
     Send item, wrappers bounded on a Send iterator, and no Sync impl at all *)
 Definition is_iter_con (c : tycon) : bool :=
-  match c with TDet | TADet => false | _ => true end.
+  match c with TDet | TADet | TFut => false | _ => true end.
 
 Definition well_bounded (cl : clause) : bool :=
   trait_eqb (cl_trait cl) TrSend &&
@@ -77,3 +77,17 @@ Qed.
 (** and conversely the bounds are not vacuous: a concurrent buffer over a Send item is sendable *)
 Definition sendable_when_expected (cls : list clause) : bool :=
   forallb (fun t => forallb (fun y => is_send cls true true y t) bools) all_wty.
+
+(** futures of async operations *)
+Theorem c16_fut_ok_sound cls : c16_fut_ok cls = true ->
+  forall t conc s y,
+    (fut_send cls conc s y t = true -> conc = true /\ s = true) /\ fut_sync cls conc s y t = false.
+Proof.
+  unfold c16_fut_ok. intros H t conc s y.
+  rewrite forallb_forall in H. specialize (H t (all_wty_complete t)).
+  rewrite forallb_forall in H. specialize (H conc (bools_complete conc)).
+  rewrite forallb_forall in H. specialize (H s (bools_complete s)).
+  rewrite forallb_forall in H. specialize (H y (bools_complete y)).
+  apply andb_prop in H as [H1 H2]. apply negb_true_iff in H2. split; auto.
+  intros E. rewrite E in H1. simpl in H1. apply andb_prop in H1. tauto.
+Qed.
